@@ -118,7 +118,7 @@ def fetch_rules(c, res, drv):
         for si, s in enumerate(b.stmts):
             if s.k == 'assign' and s.lhs.is_local() and s.lhs.local == 0 and s.rv.k == 'agg' and s.rv.d.get('variant') == 'Ok':
                 rets.append((b.idx, term_of_operand(bf, s.rv.ops[0])))
-    same = end is not None and len(rets) == 1 and end[0] == 'cast' and end[2] == rets[0][1]
+    same = end is not None and len(rets) == 1 and rules.strip_widening(end) == rules.strip_widening(rets[0][1])
     res.require(same, 'C18:%s:returned-length' % d, 'returned length %s is not the bound of the slice that was filled (%s)' % ([term_str(r[1]) for r in rets], term_str(end) if end else None),
                 short_site(bf, bbi), 'SAME-VALUE(len)', instance='%s: Ok(len) where len bounds the filled slice' % d)
     # the read uses that sub-slice
